@@ -975,11 +975,27 @@ class Generator:
         node.remove(bundles[1][0])
         info['detail'] = bundles[0][0]
       else:
-        # no bundle complete: drop one attribute of every bundle (keep the others so that it is not just "empty")
-        for b in bundles:
-          if all(node.has(n) for n in b):
-            node.remove(rng.choice(b))
-        info['detail'] = 'none of ' + '|'.join(' '.join(b) for b in bundles)
+        # no bundle complete.  If a bundle has several attributes that no 'together' constraint ties, the sharpest
+        # violation is the PARTIAL bundle (one attribute of it and nothing else): a validator that counts a bundle as
+        # specified as soon as any member is present accepts exactly that.
+        tied = set()
+        for ck2, bs2 in c.constraints:
+          if ck2 == 'together':
+            tied |= set(n for b2 in bs2 for n in b2)
+        multi = [b for b in bundles if len(b) > 1 and not set(b) <= tied]
+        if multi:
+          b = rng.choice(multi)
+          keep = rng.choice(b)
+          for n in flat:
+            node.remove(n)
+          self._add_attr(rng, node, keep, doc)
+          info['detail'] = 'partial bundle: only ' + keep
+        else:
+          # drop one attribute of every bundle (keep the others so that it is not just "empty")
+          for b in bundles:
+            if all(node.has(n) for n in b):
+              node.remove(rng.choice(b))
+          info['detail'] = 'none of ' + '|'.join(' '.join(b) for b in bundles)
     elif kind == 'variant':
       v = c.variants[d]
       have = [n for n in v if node.has(n)]
